@@ -29,6 +29,18 @@ CHECKS = {
                 rule=E1_RULE + "revenue collected in >=3 blocks, >=1 deposit and >=1 successful claim"),
     "C15": dict(tests=[e1("TestC15", "everything")], assumptions=E1_ASSUME,
                 rule=E1_RULE + ">=30 successful txs from >=5 modules and >=1 gap >= 1 day (epoch boundary)"),
+    "C04": dict(tests=[e1("TestC04", "swap-batch")], assumptions=E1_ASSUME + ["requesters submit only swap requests in a block and their recipients are themselves or passive accounts, so balance changes are attributable"],
+                rule=E1_RULE + "a sender with >=2 accepted requests in one block or an accepted request that could not be executed at end-block, and >=1 two-hop request"),
     "C18": dict(tests=[e1("TestC18", "faults")], assumptions=E1_ASSUME + ["parameters are drawn only from what each module's Validate/ValidateBasic admits"],
                 rule=E1_RULE + ">=1 block processed while a listed asset had no live price, >=1 gap >= 1 day and >=1 leveraged position opened"),
+    "C19": dict(tests=[
+                    dict(func="TestC19", profile="determinism",
+                         quick=dict(checks=96, shards=16, timeout=1500, env={"VERIF_BLOCKS_PCT": 100}),
+                         thorough=dict(checks=640, shards=16, timeout=7000, env={"VERIF_BLOCKS_PCT": 200, "VERIF_C19_TRACEDIR": "{wdir}/c19-traces-{shard}"})),
+                    dict(func="TestC19CrossProcess", profile="determinism", stage=1, nocount=True,
+                         quick=dict(skip=True),
+                         thorough=dict(shards=16, checks=1, timeout=7000, env={"VERIF_C19_TRACEDIR": "{wdir}/c19-traces-{shard}"})),
+                ],
+                assumptions=E1_ASSUME + ["a restart is modelled by discarding the application object and rebuilding it from the same (in-memory) database; block execution is single-threaded"],
+                rule=E1_RULE + ">=20 blocks, >=1 gap >= 1 day and >=1 swap batch with >=2 accepted requests; each history is re-executed by a fresh replica and by a replica restarted at generated heights (thorough: after every height, plus a replay in a separate OS process)"),
 }
